@@ -25,14 +25,14 @@ theorem userPred_true : userPred "true" 0 = false := by
   simp [userPred, reservedNames]
 
 theorem toW3 {fl : Bool} {tmpl : Term} {max : Nat} {prog : List Term} {lv : Lv} {d : Nat} {p : Pr} {m : MS}
-    {ans0 : List Term} {r : SLD.Res} {A B : Prop} (h : PSpec fl tmpl max prog lv d p m ans0 r ∧ A ∧ B) :
-    PSpecW fl tmpl max prog lv d p m ans0 r ∧ A ∧ B := ⟨h.1.toW, h.2⟩
+    {ans0 : List Term} {r : SLD.Res} {A B : Prop} (h : PSpec fl mo tmpl max prog lv d p m ans0 r ∧ A ∧ B) :
+    PSpecW fl mo tmpl max prog lv d p m ans0 r ∧ A ∧ B := ⟨h.1.toW, h.2⟩
 
 /-- a call of a user predicate (`arrive` past the builtin dispatch) -/
 theorem call_user {fl : Bool} {tmpl : Term} {max : Nat} {prog : List Term} (hprog : ∀ c ∈ prog, clauseS fl c = true)
     {N : Nat} {env1 : Env} {σ1 : Subst} {π : Nat → Nat} {D : Nat → Prop} {nv : Nat}
-    (hW1 : SimW tmpl N env1 σ1 π D nv) {K' : Cont} {G' : List (Term × Nat)} (hcg' : ContGoals fl tmpl max K' G')
-    {lv : Lv} {R' : List SLD.Frame} (hgr' : GRel lv σ1 π D G' R') (hco' : CutsOK lv G')
+    (hW1 : SimW tmpl N env1 σ1 π D nv) {K' : Cont} {G' : List (Term × Nat)} (hcg' : ContGoals fl mo tmpl max K' G')
+    {lv : Lv} {R' : List SLD.Frame} (hgr' : GRel mo lv σ1 π D G' R') (hco' : CutsOK lv G')
     {q : Term} (hq : q = img σ1 π tmpl)
     {g : Term} (hgD : InD D g) (hshape : Shape g)
     (hu : userPred (functorName g) (argList g).length = true)
@@ -45,7 +45,7 @@ theorem call_user {fl : Bool} {tmpl : Term} {max : Nat} {prog : List Term} (hpro
     {n' d l : Nat} {r : SLD.Res}
     (hs : SLD.solve false (progS prog) (n' + 1) d nv (.goal (img σ1 π g) l :: R') q
       (max - m.user.answers.length) = some r) :
-    PSpecW fl tmpl max prog lv d p m1 m.user.answers r ∧ StOK prog m1 ∧ m.user.nextVar ≤ m1.user.nextVar := by
+    PSpecW fl mo tmpl max prog lv d p m1 m.user.answers r ∧ StOK prog m1 ∧ m.user.nextVar ≤ m1.user.nextVar := by
   have hres : functorName g ∉ reservedNames := reserved_not_user hu
   obtain ⟨args2, hfun, hlen⟩ := functor_img (σ := σ1) (π := π) hshape
   rw [solve_user _ _ _ _ _ _ _ _ _ _ _ hfun hres, hlen] at hs
@@ -95,7 +95,7 @@ theorem call_user {fl : Bool} {tmpl : Term} {max : Nat} {prog : List Term} (hpro
         rw [hcs] at hs
         simpa [List.map_map, Function.comp_def] using hs
     rw [hp, hm1]
-    refine toW3 ⟨.alts rfl (Nat.pos_iff_ne_zero.1 hst.2) hshape ?_ hs', ⟨hst.1, Nat.succ_pos _⟩, Nat.le_refl _⟩
+    refine toW3 ⟨.alts rfl (Nat.pos_iff_ne_zero.1 hst.2.1) hshape ?_ hs', hst.nextId, Nat.le_refl _⟩
     refine ⟨N, σ1, π, D, G', hN, hW1, hcg', hgr', hco', hq, hgD, altsRel_of_forall ?_⟩
     intro it hit
     simp only [its, List.mem_map, List.mem_filter, decide_eq_true_eq] at hit
@@ -105,8 +105,8 @@ theorem call_user {fl : Bool} {tmpl : Term} {max : Nat} {prog : List Term} (hpro
 /-- a call of a control construct that bootstrap.pl defines by clauses -/
 theorem call_boot {fl : Bool} {tmpl : Term} {max : Nat} {prog : List Term} (hprog : ∀ c ∈ prog, clauseS fl c = true)
     {N : Nat} {env1 : Env} {σ1 : Subst} {π : Nat → Nat} {D : Nat → Prop} {nv : Nat}
-    (hW1 : SimW tmpl N env1 σ1 π D nv) {K' : Cont} {G' : List (Term × Nat)} (hcg' : ContGoals fl tmpl max K' G')
-    {lv : Lv} {R' : List SLD.Frame} (hgr' : GRel lv σ1 π D G' R') (hco' : CutsOK lv G')
+    (hW1 : SimW tmpl N env1 σ1 π D nv) {K' : Cont} {G' : List (Term × Nat)} (hcg' : ContGoals fl mo tmpl max K' G')
+    {lv : Lv} {R' : List SLD.Frame} (hgr' : GRel mo lv σ1 π D G' R') (hco' : CutsOK lv G')
     {q : Term} (hq : q = img σ1 π tmpl)
     {g : Term} (hgD : InD D g) (hshape : Shape g)
     (hu : userPred (functorName g) (argList g).length = false)
@@ -119,7 +119,7 @@ theorem call_boot {fl : Bool} {tmpl : Term} {max : Nat} {prog : List Term} (hpro
     {n d : Nat} {r : SLD.Res} (hrel : AltsRel fl σ1 π D nv d g its)
     (hs : SLD.solveAlts false (progS prog) n d nv (its.filterMap (·.2)) R' q
       (max - m.user.answers.length) = some r) :
-    PSpecW fl tmpl max prog lv d p m1 m.user.answers r ∧ StOK prog m1 ∧ m.user.nextVar ≤ m1.user.nextVar := by
+    PSpecW fl mo tmpl max prog lv d p m1 m.user.answers r ∧ StOK prog m1 ∧ m.user.nextVar ≤ m1.user.nextVar := by
   obtain ⟨pr, hpr, hcl⟩ := hboot
   have hl : lookupProc m.user (functorName g) (argList g).length = some pr := by
     rw [lookupProc_stOK hst, lookup_other prog hprog _ _ hu, hpr]
@@ -132,8 +132,8 @@ theorem call_boot {fl : Bool} {tmpl : Term} {max : Nat} {prog : List Term} (hpro
     have : m1 = (clausesCall pr.clauses (argList g) K' env1 m).2 := by rw [harr]
     rw [this]; rfl
   rw [hp, hm1]
-  exact toW3 ⟨.alts rfl (Nat.pos_iff_ne_zero.1 hst.2) hshape ⟨N, σ1, π, D, G', hN, hW1, hcg', hgr', hco', hq, hgD, hrel⟩ hs,
-    ⟨hst.1, Nat.succ_pos _⟩, Nat.le_refl _⟩
+  exact toW3 ⟨.alts rfl (Nat.pos_iff_ne_zero.1 hst.2.1) hshape ⟨N, σ1, π, D, G', hN, hW1, hcg', hgr', hco', hq, hgD, hrel⟩ hs,
+    hst.nextId, Nat.le_refl _⟩
 
 /-- the clause `call/1` compiles for the instantiated goal `g'` against the reference's frames for
     `call(g')`: the variables of `g'` become relevant variables -/
@@ -209,10 +209,10 @@ theorem cont_run {fl : Bool} (tmpl : Term) (max : Nat) (prog : List Term) (hprog
     ∀ (fuel : Nat) (K : Cont) (env : Env) (m : MS) (p : Pr) (m1 : MS),
       applyCont fuel K env m = some (p, m1) → (fl = true → ResFine fl (p, m1)) →
       ∀ (lv : Lv) (R : List SLD.Frame) (q : Term) (nv : Nat),
-        SimAt fl tmpl max lv K env m.user.nextVar R q nv (fun _ _ _ => True) → StOK prog m →
+        SimAt fl mo tmpl max lv K env m.user.nextVar R q nv (fun _ _ _ => True) → StOK prog m →
         ∀ (n d : Nat) (r : SLD.Res),
           SLD.solve false (progS prog) n d nv R q (max - m.user.answers.length) = some r →
-          PSpecW fl tmpl max prog lv d p m1 m.user.answers r ∧ StOK prog m1 ∧ m.user.nextVar ≤ m1.user.nextVar := by
+          PSpecW fl mo tmpl max prog lv d p m1 m.user.answers r ∧ StOK prog m1 ∧ m.user.nextVar ≤ m1.user.nextVar := by
   intro fuel
   induction fuel using Nat.strongRecOn with
   | _ fuel ih =>
@@ -224,7 +224,7 @@ theorem cont_run {fl : Bool} (tmpl : Term) (max : Nat) (prog : List Term) (hprog
     obtain ⟨n1, r1, hs1, rfl⟩ := solve_skip_some hs
     obtain ⟨h1, h2, h3⟩ := ihs n1 (d + 1) r1 hs1 hcg hco
     exact ⟨h1.wrap, h2, h3⟩
-  | nil =>
+  | nil hR =>
     cases n with
     | zero => rw [solve_zero] at hs; cases hs
     | succ n' =>
@@ -233,16 +233,30 @@ theorem cont_run {fl : Bool} (tmpl : Term) (max : Nat) (prog : List Term) (hprog
     rotate_left
     · cases hG
     · cases hG
-    -- an answer
-    rw [solve_nil] at hs
-    simp only [Option.some.injEq] at hs
-    subst hs
-    simp only [Prod.mk.injEq] at hres
-    obtain ⟨rfl, rfl⟩ := hres
-    refine ⟨?_, hst, Nat.le_refl _⟩
-    have := PSpec.answer (fl := fl) (tmpl := tmpl) (max := max) (prog := prog) (lv := lv) (d := d) (m := recordAnswer tmpl env m)
-      (ans0 := m.user.answers) (a := app env tmpl) (q := q) rfl (hq ▸ ansRel_of_sim hW)
-    exact this.toW
+    rcases hres with ⟨hmo, hres⟩ | ⟨hmo, hres⟩
+    · -- an answer
+      subst hmo
+      have hR' : _ = [] := hR
+      subst hR'
+      rw [solve_nil] at hs
+      simp only [Option.some.injEq] at hs
+      subst hs
+      simp only [Prod.mk.injEq] at hres
+      obtain ⟨rfl, rfl⟩ := hres
+      refine ⟨?_, hst, Nat.le_refl _⟩
+      have := PSpec.answer (fl := fl) (mo := none) (tmpl := tmpl) (max := max) (prog := prog) (lv := lv) (d := d) (m := recordAnswer tmpl env m)
+        (ans0 := m.user.answers) (a := app env tmpl) (q := q) rfl rfl (hq ▸ ansRel_of_sim hW)
+      exact this.toW
+    · -- the search nested in `\\+` found a solution: the reference cuts and fails
+      cases mo with
+      | none => cases hmo
+      | some dN =>
+      obtain ⟨l, Rout, rfl⟩ := hR
+      have := solve_tail_some hs
+      subst this
+      simp only [Prod.mk.injEq] at hres
+      obtain ⟨rfl, rfl⟩ := hres
+      exact ⟨(PSpec.done rfl rfl).toW, hst, Nat.le_refl _⟩
   | @cons g0 G' fr R' hhd hgr' _ =>
   cases n with
   | zero => rw [solve_zero] at hs; cases hs
@@ -272,7 +286,7 @@ theorem cont_run {fl : Bool} (tmpl : Term) (max : Nat) (prog : List Term) (hprog
     obtain ⟨hgD, l, hfr, _⟩ := hhd
     suffices main : ∀ (n' d l : Nat) (r : SLD.Res),
         SLD.solve false (progS prog) (n' + 1) d nv (.goal (img σ π g) l :: R') q (max - m.user.answers.length) = some r →
-        PSpecW fl tmpl max prog lv d p m1 m.user.answers r ∧ StOK prog m1 ∧ m.user.nextVar ≤ m1.user.nextVar by
+        PSpecW fl mo tmpl max prog lv d p m1 m.user.answers r ∧ StOK prog m1 ∧ m.user.nextVar ≤ m1.user.nextVar by
       rcases hfr with rfl | ⟨⟨x, rfl⟩, rfl⟩
       · exact main n' d l r hs
       · -- the reference calls `call(call(G))`: one call deeper
@@ -299,7 +313,7 @@ theorem cont_run {fl : Bool} (tmpl : Term) (max : Nat) (prog : List Term) (hprog
     have henv1' : env.bind 0 (.app "/" (.cons (.atom (functorName g)) (.cons (.int (argList g).length) .nil))) = env1 := henv1
     rw [henv1'] at hW1
     have himg : ∀ t, InD D t → img σ1 π t = img σ π t := fun t ht => by simp only [img, hsame t ht]
-    have hgr1 : GRel lv σ1 π D G' R' := GRel.congr hgr' himg
+    have hgr1 : GRel mo lv σ1 π D G' R' := GRel.congr hgr' himg
     have hq1 : q = img σ1 π tmpl := by rw [himg tmpl hW.tmplD]; exact hq
     rw [← himg g hgD] at hs
     cases f with
@@ -444,12 +458,12 @@ theorem cont_run {fl : Bool} (tmpl : Term) (max : Nat) (prog : List Term) (hprog
         -- the variables of the instantiated goal become relevant
         have hgv : ∀ v, g'.hasVar v = true → RV σ1 D v := fun v hv' => by rw [hg'] at hv'; exact vars_subst_rv hxD hv'
         obtain ⟨hW2, hgD2, hitem⟩ := call_item (fl := fl) (d := d) hW1 hb hw hgv
-        have hgr2 : GRel lv σ1 π (fun v => D v ∨ RV σ1 D v) G' R' :=
+        have hgr2 : GRel mo lv σ1 π (fun v => D v ∨ RV σ1 D v) G' R' :=
           hgr1.step_id (fun v hv' => Or.inl hv') (fun _ _ => rfl)
         refine toW3 ⟨.alts (its := [(qClause g', some (.frames (SLD.bodyFrames false (g'.rename π) d)))])
-          (g := qHead g') rfl (Nat.pos_iff_ne_zero.1 hst.2) (qHead_shape g')
+          (g := qHead g') rfl (Nat.pos_iff_ne_zero.1 hst.2.1) (qHead_shape g')
           ⟨N, σ1, π, _, G', hN, hW2, hcg', hgr2, hco', hq1, hgD2, .cons hitem .nil⟩
-          (by simpa [SLD.bodyFrames] using hs), ⟨hst.1, Nat.succ_pos _⟩, Nat.le_refl _⟩
+          (by simpa [SLD.bodyFrames] using hs), hst.nextId, Nat.le_refl _⟩
     have hshape := shape_of_hornGoal hhg
     rcases hornGoal_shape hhg with ⟨fn, rfl, hfn⟩ | ⟨a, b, rfl⟩ | ⟨fn, as, rfl, hu, _⟩
     · -- an atom: `true` or a user predicate
@@ -472,8 +486,8 @@ theorem cont_run {fl : Bool} (tmpl : Term) (max : Nat) (prog : List Term) (hprog
           rw [this]; rfl
         rw [img_atom, solve_true] at hs
         rw [hp, hm1]
-        exact toW3 ⟨.direct rfl (Nat.pos_iff_ne_zero.1 hst.2) hcode hvars
-          ⟨N, σ1, π, D, G', hN, hW1, hcg', hgr1, hco', hq1, trivial⟩ hs, ⟨hst.1, Nat.succ_pos _⟩, Nat.le_refl _⟩
+        exact toW3 ⟨.direct rfl (Nat.pos_iff_ne_zero.1 hst.2.1) hcode hvars
+          ⟨N, σ1, π, D, G', hN, hW1, hcg', hgr1, hco', hq1, trivial⟩ hs, hst.nextId, Nat.le_refl _⟩
       · -- user atom
         have hres : fn ∉ reservedNames := reserved_not_user hu
         simp only [functorName, argList] at harr
@@ -512,7 +526,7 @@ theorem cont_run {fl : Bool} (tmpl : Term) (max : Nat) (prog : List Term) (hprog
             rw [hr] at hs
             simp only at hs
             obtain ⟨σ', π', hW', heq⟩ := simW_eq hW1 haD hbD hu hr
-            have hgr2 : GRel lv σ' π' D G' (R'.map (SLD.Frame.subst θ)) := hgr1.step (fun v hv => hv) θ heq
+            have hgr2 : GRel mo lv σ' π' D G' (R'.map (SLD.Frame.subst θ)) := hgr1.step (fun v hv => hv) θ heq
             have hq2 : Robinson.applySubst θ q = img σ' π' tmpl := by
               rw [applySubst_eq, hq1, heq tmpl hW1.tmplD]
             exact ih f' (by omega) K' env' m p m1 harr hfine lv _ _ nv
